@@ -41,6 +41,11 @@ def configs(tier):
         c.append(("tp=%s,script=%s,ma=b,mb=b,%s" % (tp, s1, M), dd))
         c.append(("tp=%s,script=%s,ma=b,mb=nb,style=strict,%s" % (tp, s2, M), dd - 1))
         c.append(("tp=%s,script=%s,ma=nb,mb=b,style=strict,%s" % (tp, s2, M), dd - 1))
+    # flow-control back-pressure (DESIGN 7a): a write stall ends only once the peer has READ what was written, so with
+    # both ends stalled each needs the other to keep its read interest alive while it waits to write.  Loop style only
+    # (both directions served from one loop), stall (+EAGAIN in thorough) deviations only, so the frontier stays small.
+    for tp in ("tcp", "tls", "utlstls"):
+        c.append(("tp=%s,script=T2,style=loop,bp=1,menu=0x%x,%s" % (tp, 0x10 if q else 0x18, M), 2 if q else 3))
     return c
 
 
